@@ -442,6 +442,24 @@ Proof.
   intros. split; [symmetry; apply run_low | symmetry; apply doctor_low].
 Qed.
 
+(* ---- process output at start-up is a function of public variables ------------------------------ *)
+Lemma startup_warnings_low e : startup_warnings (low_env e) = startup_warnings e.
+Proof.
+  unfold startup_warnings. rewrite (getenv_low_public e E_ENDPOINT pub_endpoint), (getenv_low_public e E_TOOL_CHOICE pub_tool_choice).
+  reflexivity.
+Qed.
+Theorem startup_output_noninterference : forall w1 w2,
+  low_world w1 = low_world w2 -> startup_warnings (w_env w1) = startup_warnings (w_env w2).
+Proof.
+  intros w1 w2 L. rewrite <- (startup_warnings_low (w_env w1)), <- (startup_warnings_low (w_env w2)).
+  change (low_env (w_env w1)) with (w_env (low_world w1)). change (low_env (w_env w2)) with (w_env (low_world w2)).
+  rewrite L. reflexivity.
+Qed.
+Lemma startup_warning_example :
+  startup_warnings [(E_ENDPOINT, lit "localhost/v1/responses"); (E_API_KEY, lit "sk-AAAA"); (E_TOOL_CHOICE, lit "bogus")]
+  = [lit "invalid RIP_OPENRESPONSES_TOOL_CHOICE=""bogus"": unsupported value (expected auto|none|required|function:<name>|json:<tool_choice_json>); defaulting to auto"].
+Proof. vm_compute. reflexivity. Qed.
+
 (* ---- the schema stage: a merged document that does not fit the typed schema ------------------- *)
 (* the whole diagnostic report (per-source error texts + summary) is a function of the low projection - for worlds whose
    merged document misfits too, whatever scalar sits at the offending position *)
